@@ -2,11 +2,11 @@
 # usage: seedtest.sh <seed-id> <property> : applies the seeded change to /repo, runs the check, reverts.
 sid=$1; prop=$2
 cd /repo || exit 2
-if ! git apply --check /verif/seeded/$sid/patch.diff 2>/dev/null; then echo "PATCH DOES NOT APPLY: $sid"; git apply --3way /verif/seeded/$sid/patch.diff || exit 3; fi
-git apply /verif/seeded/$sid/patch.diff 2>/dev/null
+if git apply --check /verif/seeded/$sid/patch.diff 2>/dev/null; then git apply /verif/seeded/$sid/patch.diff
+else echo "patch needs 3-way merge: $sid"; git apply --3way /verif/seeded/$sid/patch.diff || { git reset -q --hard HEAD; echo "PATCH DOES NOT APPLY: $sid"; exit 3; }; fi
 cd /verif
 ./check $prop > /tmp/seedtest.$sid.out 2>&1; rc=$?
-git -C /repo checkout -- . 
+git -C /repo reset -q --hard HEAD
 git -C /repo status --short | grep -v '^??' 
 echo "seed=$sid prop=$prop exit=$rc"
 grep "^VIOLATION\|^  harness=\|^INCONCLUSIVE\|^property\|^KNOWN" /tmp/seedtest.$sid.out | cut -c1-300 | head -20
